@@ -16,13 +16,13 @@ import (
 // unbounded; FIFO writes are whole frames (<= PIPE_BUF, atomic); pids are never reused.
 
 type Kernel struct {
-	w        *World
-	procs    map[int]*Proc
-	nextPid  int
-	fifos    map[string]*Fifo
-	Programs map[string]func() // argv[0] -> program main
+	w         *World
+	procs     map[int]*Proc
+	nextPid   int
+	fifos     map[string]*Fifo
+	Programs  map[string]func() // argv[0] -> program main
 	Listeners []*ListenSock
-	Events   []KEvent // ground truth for the oracles
+	Events    []KEvent // ground truth for the oracles
 }
 
 type KEvent struct {
@@ -34,21 +34,21 @@ type KEvent struct {
 }
 
 type Proc struct {
-	Pid, PPid int
-	Args      []string
-	Env       []string
-	fds       map[int]*FD
-	tasks     []*Task
-	Exited    bool
-	ExitCode  int
-	Killed    bool
-	StartAt   time.Duration
-	ExitAt    time.Duration
-	Name      string
+	Pid, PPid  int
+	Args       []string
+	Env        []string
+	fds        map[int]*FD
+	tasks      []*Task
+	Exited     bool
+	ExitCode   int
+	Killed     bool
+	StartAt    time.Duration
+	ExitAt     time.Duration
+	Name       string
 	sigDeliver []func(sig string)
-	conns     []*ConnEnd
-	SlowStart time.Duration
-	Ext       map[string]interface{}
+	conns      []*ConnEnd
+	SlowStart  time.Duration
+	Ext        map[string]interface{}
 	// StalledUntil: until this simulated instant no task of the process is scheduled
 	StalledUntil time.Duration
 }
@@ -121,6 +121,12 @@ func (k *Kernel) Getenv(key string) string {
 		}
 	}
 	return val
+}
+
+func (k *Kernel) Setenv(key, value string) {
+	if p := k.cur(); p != nil {
+		p.Env = append(p.Env, key+"="+value)
+	}
 }
 
 func (k *Kernel) Environ() []string {
@@ -225,11 +231,11 @@ func (f *FD) Close() error {
 // ---------------------------------------------------------------- FIFO
 
 type Fifo struct {
-	path         string
-	buf          []byte
-	readers      int
-	writers      int
-	everWriter   bool
+	path       string
+	buf        []byte
+	readers    int
+	writers    int
+	everWriter bool
 }
 
 func (k *Kernel) Mkfifo(path string) error {
@@ -291,20 +297,20 @@ func (ff *Fifo) write(b []byte) (int, error) {
 // ---------------------------------------------------------------- sockets
 
 type ListenSock struct {
-	Addr    string
-	queue   []*ConnEnd // server ends waiting to be accepted
-	refs    int
-	Closed  bool
-	k       *Kernel
+	Addr   string
+	queue  []*ConnEnd // server ends waiting to be accepted
+	refs   int
+	Closed bool
+	k      *Kernel
 }
 
 type ConnEnd struct {
-	peer     *ConnEnd
-	in       []byte
-	closed   bool // this end closed
-	ID       int
-	k        *Kernel
-	Accepted bool
+	peer      *ConnEnd
+	in        []byte
+	closed    bool // this end closed
+	ID        int
+	k         *Kernel
+	Accepted  bool
 	AcceptPid int
 }
 
@@ -401,8 +407,8 @@ func (c *ConnEnd) Write(b []byte) (int, error) {
 	return len(b), nil
 }
 
-func (c *ConnEnd) close()        { c.closed = true }
-func (c *ConnEnd) Close() error  { c.close(); return nil }
+func (c *ConnEnd) close()           { c.closed = true }
+func (c *ConnEnd) Close() error     { c.close(); return nil }
 func (c *ConnEnd) PeerClosed() bool { return c.peer.closed }
 
 // ---------------------------------------------------------------- exec / exit / kill
